@@ -61,22 +61,24 @@ fn structural_samples(f: &Frame) -> Result<Vec<Vec<i64>>, String> {
     use flac_codec::stream::ChannelAssignment as CA;
     match f.header.channel_assignment {
         CA::Independent(_) => {}
+        // (wrapping only so that garbage cannot overflow the harness itself; such
+        // frames are excluded from the sample comparison by the bit-depth test)
         CA::LeftSide => {
             for i in 0..bs {
-                subs[1][i] = subs[0][i] - subs[1][i];
+                subs[1][i] = subs[0][i].wrapping_sub(subs[1][i]);
             }
         }
         CA::SideRight => {
             for i in 0..bs {
-                subs[0][i] += subs[1][i];
+                subs[0][i] = subs[0][i].wrapping_add(subs[1][i]);
             }
         }
         CA::MidSide => {
             for i in 0..bs {
                 let side = subs[1][i];
-                let mid = (subs[0][i] << 1) | (side & 1);
-                subs[0][i] = (mid + side) >> 1;
-                subs[1][i] = (mid - side) >> 1;
+                let mid = subs[0][i].wrapping_shl(1) | (side & 1);
+                subs[0][i] = mid.wrapping_add(side) >> 1;
+                subs[1][i] = mid.wrapping_sub(side) >> 1;
             }
         }
     }
@@ -174,6 +176,16 @@ pub fn judge_frame(rep: &mut Report, si: &StreamInfo, fb: &[u8], refinfo: Option
             c.iter().any(|v| *v < lo || *v > hi)
         });
         if out_of_depth {
+            rep.count("verdicts", "both-accept:values-outside-bit-depth (samples not compared)");
+            return;
+        }
+    }
+    {
+        // same for the reconstructed channels: they must fit the frame's bit depth
+        let b = u32::from(frame.header.bits_per_sample);
+        let lo = -(1i64 << (b - 1));
+        let hi = (1i64 << (b - 1)) - 1;
+        if samples.iter().any(|c| c.iter().any(|v| *v < lo || *v > hi)) {
             rep.count("verdicts", "both-accept:values-outside-bit-depth (samples not compared)");
             return;
         }
